@@ -9,7 +9,7 @@ from ..core import Failure
 from ..model import order_key
 
 ID = "C18"
-BUDGET = {"quick": 500, "thorough": 2500}
+BUDGET = {"quick": 500, "thorough": 6000}
 TECHNIQUE = ("bounded-exhaustive enumeration of small key matrices and index grids (multiprocessing in the thorough "
              "tier, two numpy CPU-dispatch configurations) + Hypothesis-generated large tie-rich matrices, vs a "
              "comparison-based reference sort and brute-force grid enumeration with exact / 60-digit norm arithmetic")
